@@ -646,6 +646,8 @@ var (
 func stack3(t vh.TB) *vh.E2E {
 	once3.Do(func() {
 		e3, err3 = vh.NewE2E([]string{"--session-cookie-name=agent-session", "--disable-ssl-for-test", "--shim-websockets", "--shim-path=shim",
+			"--debug", "--favicon-url=https://example.com/favicon.ico", "--banner-height=50px", "--enable-websockets-injection", "--rewrite-websocket-host",
+			"--session-cookie-timeout=1h", "--session-cookie-cache-limit=100", "--proxy-timeout=90s", "--disable-gce-vm-header", "--graceful-shutdown-timeout=1s",
 			"--inject-banner=<b>verif banner</b>"})
 	})
 	if err3 != nil {
